@@ -253,3 +253,39 @@ func evalStr(v ssa.Value) (string, bool) {
 	}
 	return "", false
 }
+
+// globalMapKeys: the constant string keys of a package-level map literal (make + MapUpdate in init);
+// nil when the map is built any other way or written outside init.
+func (p *Prog) globalMapKeys(name string) []string {
+	mk, ok := p.globalInit(name).(*ssa.MakeMap)
+	if !ok {
+		return nil
+	}
+	for _, fn := range p.LibFns {
+		if FnName(fn) == "init" {
+			continue
+		}
+		for _, b := range fn.Blocks {
+			for _, ins := range b.Instrs {
+				if mu, ok := ins.(*ssa.MapUpdate); ok {
+					if u, ok := mu.Map.(*ssa.UnOp); ok {
+						if g, ok := u.X.(*ssa.Global); ok && g.Name() == name {
+							return nil
+						}
+					}
+				}
+			}
+		}
+	}
+	var keys []string
+	for _, r := range *mk.Referrers() {
+		if mu, ok := r.(*ssa.MapUpdate); ok {
+			k, ok := constStr(mu.Key)
+			if !ok {
+				return nil
+			}
+			keys = append(keys, k)
+		}
+	}
+	return keys
+}
